@@ -1320,10 +1320,9 @@ func (d *DFA) searchAt(cache *DFACache, haystack []byte, startPos int) int { //n
 //  5. Add transition to current state
 //
 // Returns (nil, nil) if no transition is possible (dead state).
-// Returns (nil, errCacheCleared) if cache was cleared and rebuilt.
-//
-//	The caller must re-obtain the current state from the start state
-//	at the current position and continue searching.
+// If the cache is full it is cleared and the next state is added to the fresh
+// cache: previously obtained *State pointers and flatTrans slices are then stale,
+// the search continues from the returned state.
 //
 // Returns (nil, error) if cache is full AND max clears exceeded,
 //
@@ -1445,10 +1444,18 @@ func (d *DFA) determinize(cache *DFACache, current *State, b byte) (*State, erro
 			// Max clears exceeded - fall back to NFA
 			return nil, clearErr
 		}
-		// Cache was cleared successfully. Return errCacheCleared to signal
-		// the search loop that all state pointers are now stale and it must
-		// re-obtain the start state at the current position.
-		return nil, errCacheCleared
+		// Cache was cleared successfully: every cached state, including current,
+		// is gone. The search only needs the state it moves to, so add that state
+		// to the fresh cache and let the search carry on from it. (Restarting from
+		// a start state at this position would drop the in-flight match.)
+		next, existed, insErr := cache.GetOrInsert(key, newState)
+		if insErr != nil {
+			return nil, insErr
+		}
+		if !existed {
+			cache.registerState(next)
+		}
+		return next, nil
 	}
 
 	// Register state in ID lookup map
